@@ -571,6 +571,20 @@ def fnarg_child(arg):
         res["not_passed_afterwards"] = "ok"
     except UndeclaredDependencyError:
         res["not_passed_afterwards"] = "undeclared"
+    # the same hidden call with the caller invoked through one modifier, and through chains of modifiers
+    chains = {"force_local": lambda f: f.force_local(), "partial+force_local": lambda f: f.partial().force_local(),
+              "force_local+ignore_result(False)": lambda f: f.force_local().ignore_result(False),
+              "context+force_local+partial": lambda f: f.with_context_args({"k": 1}).force_local().partial(),
+              "monitor+force_local": lambda f: f.monitor_progress(False).force_local() if hasattr(f, "monitor_progress") else f.force_local().force_local()}
+    res["chained"] = {}
+    for k, (name, mk) in enumerate(sorted(chains.items())):
+        try:
+            mk(mod.caller)(10 + k)
+            res["chained"][name] = "ok"
+        except UndeclaredDependencyError:
+            res["chained"][name] = "undeclared"
+        except Exception as e:
+            res["chained"][name] = "raise:%s:%s" % (type(e).__name__, str(e)[:120])
     res["closure"] = sorted(f.qualified_name_without_version.split(":")[-1]
                             for f in mod.caller.dependencies().transitive_memento_fn_dependencies())
     return res
@@ -591,6 +605,12 @@ def run_fnarg(case, out, fail):
         if res["not_passed_afterwards"] != "undeclared":
             fail("a call outside the static closure is not refused",
                  "hidden call to a function that had been passed as an argument (%s) to an EARLIER call: %s" % (how, res["not_passed_afterwards"]))
+        for name, got in sorted(res["chained"].items()):
+            out["obs"]["calls_expected_undeclared"] += 1
+            out["obs"]["hidden_calls_with_the_caller_behind_modifiers"] += 1
+            if got != "undeclared":
+                fail("a call outside the static closure is not refused",
+                     "hidden call to a function that was not passed, caller invoked through %s: %s" % (name, got))
         if res["passed"] != 2 + 1 + 2 + 100:
             fail("a memento function passed as an argument (%s) cannot be called" % how, "outcome %s" % (res["passed"],))
         out["nontrivial"].append("fnarg:" + how)
